@@ -111,9 +111,9 @@ SeqMax(s) == IF s = <<>> THEN 0
 NestArg(a) == IF a.k = "aidx" THEN NestIndex(a.e)
               ELSE IF a.k = "alit" THEN 0 ELSE NestLogical(a.e)
 NestIndex(ie) == IF ie.id.k = "field" THEN 0
-                 ELSE 1 + SeqMax([i \in 1..Len(ie.id.args) |-> NestArg(ie.id.args[i])])
+                 ELSE 1 + SeqMax(Strict([i \in 1..Len(ie.id.args) |-> NestArg(ie.id.args[i])]))
 NestLogical(n) ==
-  IF n.k = "comb" THEN SeqMax([i \in 1..Len(n.items) |-> NestLogical(n.items[i])])
+  IF n.k = "comb" THEN SeqMax(Strict([i \in 1..Len(n.items) |-> NestLogical(n.items[i])]))
   ELSE IF n.k = "cmp" THEN NestIndex(n.lhs)
   ELSE IF n.k = "paren" THEN 1 + NestLogical(n.e)
   ELSE IF n.k = "not" THEN 1 + NestLogical(n.e)
